@@ -112,6 +112,11 @@ def gen_case(rng, tier, nmax):
     n = rng.randrange(2, nmax + 1) if rng.random() < 0.85 else rng.randrange(1, 5)
     shape = rng.choice(['sparse', 'dense', 'grid', 'detour', 'detour', 'layered', 'parts'])
     edges = make_graph(rng, n, shape)
+    wide = rng.random() < 0.15
+    if wide:
+        # weights beyond 32 bits (sums stay far below 2^63): the weight is a u64 all the way through the search
+        big = rng.choice([2 ** 32, 2 ** 33 + 5, 2 ** 40])
+        edges = [(a, b, w * big + rng.choice([0, 0, 1, 7]) if rng.random() < 0.7 else w) for (a, b, w) in edges]
     idmode = rng.choice(['same', 'same', 'permuted', 'sparse'])
     if idmode == 'same':
         ids = list(range(n))
@@ -137,7 +142,7 @@ def gen_case(rng, tier, nmax):
     if edges and rng.random() < 0.2:
         e = rng.choice(edges)
         ops.append(f'wedge {e[0]} {e[1]} {e[2] + 1}')           # duplicate edge: rejected, weight must not change
-    tags = [f'shape:{shape}', f'ids:{idmode}']
+    tags = [f'shape:{shape}', f'ids:{idmode}'] + (['wide-weights'] if wide else [])
 
     pairs_all = [(s, t) for s in range(n) for t in range(n)]
     succ = [[] for _ in range(n)]
